@@ -1124,8 +1124,12 @@ class Payload(object):
         if not isinstance(method, utils.STRING_TYPES):
             raise ValueError("Method name must be a string.")
 
-        if not self.id:
-            # Generate a request ID
+        if not self.id and (
+            isinstance(self.id, bool)
+            or not isinstance(self.id, utils.NUMERIC_TYPES)
+        ):
+            # Generate a request ID, but keep a numeric ID like 0 or 0.0:
+            # it is a valid ID chosen by the caller
             self.id = str(uuid.uuid4())
 
         request = {"id": self.id, "method": method}
